@@ -600,17 +600,17 @@ Qed.
 (* Theorem: for an arc whose plane does not contain the polar axis (n_z <> 0), with no point in the
    pole snap zone, and a query that is exactly on the plane or fails the tolerance test, the
    longitude-interval logic of the implementation decides exactly the specification. *)
-Lemma c14_pwg_general_correct a b p :
+Lemma c14_lonlat_general_correct a b p :
   c14_z (c14_cross a b) <> 0 ->
   c14_is_pole a = false -> c14_is_pole b = false -> c14_is_pole p = false ->
   p <> (0, 0, 0) ->
   (c14_triple a b p = 0 \/ c14_plane_ok a b p = false) ->
-  c14_pwg a b p = Some (c14_on_arc a b p).
+  c14_pwg_lonlat a b p = Some (c14_on_arc a b p).
 Proof.
   intros Hnz Pa Pb Pp Hp0 Hpl.
   assert (Hn : c14_cross a b <> (0, 0, 0)).
   { intros E. apply Hnz. rewrite E. reflexivity. }
-  unfold c14_pwg.
+  unfold c14_pwg_lonlat.
   assert (Anti : c14_antipodal a b = false).
   { unfold c14_antipodal. apply c14_is0_false in Hn. rewrite Hn. reflexivity. }
   rewrite Anti.
@@ -669,9 +669,9 @@ Qed.
 
 (* arc from lat 80.2 (lon 0) over the north pole to lat 29.9 (lon 180); the query at lat 49.9 on lon 0 lies
    below the first endpoint, not on the arc, and is accepted *)
-Lemma c14_pwg_through_pole_refuted :
+Lemma c14_lonlat_through_pole_refuted :
   exists a b p, c14_cross a b <> (0, 0, 0) /\ c14_on_arc a b (0, 0, 1) = true /\
-                c14_on_arc a b p = false /\ c14_pwg a b p = Some true.
+                c14_on_arc a b p = false /\ c14_pwg_lonlat a b p = Some true.
 Proof.
   exists (17, 0, 98), (-87, 0, 50), (64, 0, 76). repeat split; try (vm_compute; congruence).
 Qed.
@@ -695,15 +695,15 @@ Qed.
 
 (* the inputs that refuted the property before the fixes now agree with the specification *)
 Example c14_ex_equator_endpoint_fixed :
-  c14_pwg (1, 0, 0) (-17, 0, -98) (-8, 0, -99) = Some (c14_on_arc (1, 0, 0) (-17, 0, -98) (-8, 0, -99)) /\
-  c14_pwg (0, 1, 0) (0, 0, -1) (0, 3, 4) = Some (c14_on_arc (0, 1, 0) (0, 0, -1) (0, 3, 4)) /\
-  c14_pwg (0, 0, -1) (0, 1, 0) (0, 3, 4) = Some (c14_on_arc (0, 0, -1) (0, 1, 0) (0, 3, 4)).
+  c14_pwg_lonlat (1, 0, 0) (-17, 0, -98) (-8, 0, -99) = Some (c14_on_arc (1, 0, 0) (-17, 0, -98) (-8, 0, -99)) /\
+  c14_pwg_lonlat (0, 1, 0) (0, 0, -1) (0, 3, 4) = Some (c14_on_arc (0, 1, 0) (0, 0, -1) (0, 3, 4)) /\
+  c14_pwg_lonlat (0, 0, -1) (0, 1, 0) (0, 3, 4) = Some (c14_on_arc (0, 0, -1) (0, 1, 0) (0, 3, 4)).
 Proof. repeat split; vm_compute; reflexivity. Qed.
 
 (* swapping the endpoints still changes the answer in the pole branch: arc from (lon 90, lat -18.4) to the south pole,
    query = the south pole itself *)
-Lemma c14_pwg_swap_refuted :
-  exists a b p, c14_cross a b <> (0, 0, 0) /\ c14_pwg a b p <> c14_pwg b a p.
+Lemma c14_lonlat_swap_refuted :
+  exists a b p, c14_cross a b <> (0, 0, 0) /\ c14_pwg_lonlat a b p <> c14_pwg_lonlat b a p.
 Proof.
   exists (0, 3, -1), (0, 0, -1), (0, 0, -2). split; vm_compute; congruence.
 Qed.
@@ -983,16 +983,16 @@ Proof.
     destruct (Z.leb_spec 0 (- Cap)); destruct (Z.leb_spec 0 (- Cpb)); cbn [andb]; try reflexivity; exfalso; nia.
 Qed.
 
-Lemma c14_pwg_meridian_correct a b p :
+Lemma c14_lonlat_meridian_correct a b p :
   c14_lon_eq (c14_lon_f a) (c14_lon_f b) = true ->
   c14_cross a b <> (0, 0, 0) ->
   c14_is_pole a = false -> c14_is_pole b = false -> c14_is_pole p = false ->
   (c14_x a <> 0 \/ c14_y a <> 0) -> (c14_x b <> 0 \/ c14_y b <> 0) -> (c14_x p <> 0 \/ c14_y p <> 0) ->
   (c14_triple a b p = 0 \/ c14_plane_ok a b p = false) ->
-  c14_pwg a b p = Some (c14_on_arc a b p).
+  c14_pwg_lonlat a b p = Some (c14_on_arc a b p).
 Proof.
   intros Heq Hn Pa Pb Pp Da Db Dp Hpl.
-  unfold c14_pwg.
+  unfold c14_pwg_lonlat.
   assert (Anti : c14_antipodal a b = false).
   { unfold c14_antipodal. apply c14_is0_false in Hn. rewrite Hn. reflexivity. }
   rewrite Anti.
@@ -1115,18 +1115,18 @@ Local Open Scope Z_scope.
 Example c14_ex_general_true :
   let a := (1, 0, 0) in let b := (0, 1, 0) in let p := (1, 1, 0) in
   c14_z (c14_cross a b) <> 0 /\ c14_is_pole a = false /\ c14_is_pole b = false /\ c14_is_pole p = false /\
-  p <> (0, 0, 0) /\ c14_triple a b p = 0 /\ c14_pwg a b p = Some true.
+  p <> (0, 0, 0) /\ c14_triple a b p = 0 /\ c14_pwg_lonlat a b p = Some true.
 Proof. cbv zeta. repeat split; try (vm_compute; congruence). Qed.
 
 Example c14_ex_general_false_off_plane :
   let a := (3, 1, 2) in let b := (-1, 4, 1) in let p := (1, 1, 1) in
   c14_z (c14_cross a b) <> 0 /\ c14_is_pole a = false /\ c14_is_pole b = false /\ c14_is_pole p = false /\
-  p <> (0, 0, 0) /\ c14_plane_ok a b p = false /\ c14_pwg a b p = Some false.
+  p <> (0, 0, 0) /\ c14_plane_ok a b p = false /\ c14_pwg_lonlat a b p = Some false.
 Proof. cbv zeta. repeat split; try (vm_compute; congruence). Qed.
 
 Example c14_ex_general_false_outside :
   let a := (3, 1, 2) in let b := (-1, 4, 1) in let p := (7, -2, 3) in   (* p = 2a - b: on the circle, before a *)
-  c14_z (c14_cross a b) <> 0 /\ c14_triple a b p = 0 /\ c14_is_pole p = false /\ c14_pwg a b p = Some false.
+  c14_z (c14_cross a b) <> 0 /\ c14_triple a b p = 0 /\ c14_is_pole p = false /\ c14_pwg_lonlat a b p = Some false.
 Proof. cbv zeta. repeat split; try (vm_compute; congruence). Qed.
 
 Example c14_ex_crossing :
@@ -1150,48 +1150,132 @@ Example c14_ex_meridian :
   let a := (3, 0, 1) in let b := (2, 0, 5) in let p := (1, 0, 1) in
   c14_lon_eq (c14_lon_f a) (c14_lon_f b) = true /\ c14_cross a b <> (0, 0, 0) /\
   c14_is_pole a = false /\ c14_is_pole b = false /\ c14_is_pole p = false /\ c14_triple a b p = 0 /\
-  c14_pwg a b p = Some true /\ c14_pwg a b (-1, 0, 1) = Some false /\ c14_on_arc a b (-1, 0, 1) = false.
+  c14_pwg_lonlat a b p = Some true /\ c14_pwg_lonlat a b (-1, 0, 1) = Some false /\ c14_on_arc a b (-1, 0, 1) = false.
 Proof. cbv zeta. repeat split; try (vm_compute; congruence). Qed.
 
 (* ------------------------------------------------------------------------------------------ *)
-(* gca_gca_intersection end to end for arcs in general position *)
-Lemma c14_is_pole_neg v : c14_is_pole (c14_neg v) = c14_is_pole v.
+(* point_within_gca as coded since a3bf7a7f (undirected): on-plane test + two sign tests           *)
+
+(* the quantity is not inside the tolerance window just beyond an endpoint: X >= 0, or X/sqrt(q) < -MACHINE_EPSILON *)
+Definition c14_clear (X q : Z) : Prop :=
+  0 <= X \/ c14_EPS_num * c14_EPS_num * q < X * X * (c14_EPS_den * c14_EPS_den).
+
+Lemma c14_side_ok_clear X q : c14_clear X q -> c14_side_ok X q = (0 <=? X).
 Proof.
-  destruct v as [[x y] z]. unfold c14_is_pole, c14_neg, c14_nsq, c14_dot, c14_x, c14_y, c14_z. cbn [fst snd].
-  replace (- x * - x + - y * - y + - z * - z) with (x * x + y * y + z * z) by ring.
-  replace (- z * - z) with (z * z) by ring. reflexivity.
+  unfold c14_clear, c14_side_ok. intros [H|H].
+  - destruct (Z.leb_spec 0 X); [reflexivity|lia].
+  - destruct (Z.leb_spec 0 X); [reflexivity|]. cbn [orb]. apply Z.leb_gt. exact H.
 Qed.
 
-(* end to end: for two arcs in general position (neither plane contains the polar axis, no endpoint and neither
-   candidate in the pole snap zone, circles not numerically parallel) the faithful model of gca_gca_intersection
-   returns exactly the specified common points *)
-Lemma c14_gca_gca_general_correct w0 w1 v0 v1 :
+Definition c14_clear_pt (a b p : c14_vec) : Prop :=
+  c14_clear (c14_dot (c14_cross a p) (c14_cross a b)) (c14_nsq a * c14_nsq p * c14_nsq (c14_cross a b)) /\
+  c14_clear (c14_dot (c14_cross p b) (c14_cross a b)) (c14_nsq p * c14_nsq b * c14_nsq (c14_cross a b)).
+
+(* for EVERY arc shorter than 180 degrees (a x b <> 0: through a pole, meridional, almost meridional, anywhere) and every
+   query that is exactly on the great circle or fails the on-plane tolerance, and is not within MACHINE_EPSILON beyond an
+   endpoint, the undirected decision is exactly the specification *)
+Lemma c14_pwg_correct a b p :
+  c14_cross a b <> (0, 0, 0) ->
+  (c14_triple a b p = 0 \/ c14_plane_ok a b p = false) ->
+  c14_clear_pt a b p ->
+  c14_pwg a b p = Some (c14_on_arc a b p).
+Proof.
+  intros Hn Hpl [C1 C2]. unfold c14_pwg.
+  assert (Anti : c14_antipodal a b = false).
+  { unfold c14_antipodal. apply c14_is0_false in Hn. rewrite Hn. reflexivity. }
+  rewrite Anti.
+  destruct Hpl as [Ht|Hpl].
+  2:{ rewrite Hpl. cbn [negb]. f_equal. symmetry. rewrite c14_on_arc_unfold.
+      apply (c14_plane_ok_false_triple a b p Hn) in Hpl.
+      destruct (Z.eqb_spec (c14_triple a b p) 0); [contradiction|reflexivity]. }
+  rewrite (c14_plane_ok_exact a b p Hn Ht). cbn [negb]. cbv zeta.
+  rewrite (c14_side_ok_clear _ _ C1), (c14_side_ok_clear _ _ C2).
+  rewrite c14_on_arc_unfold, Ht. reflexivity.
+Qed.
+
+(* integer directions are always clear of the window when the test quantity is a non-negative integer; a sufficient
+   condition that needs no tolerance reasoning: both "between" quantities are non-negative, or one is negative enough *)
+Lemma c14_clear_nonneg X q : 0 <= X -> c14_clear X q.
+Proof. intros; left; assumption. Qed.
+
+(* swapping the endpoints does not change the undirected decision (no hypotheses at all) *)
+Lemma c14_pwg_swap a b p : c14_pwg a b p = c14_pwg b a p.
+Proof.
+  unfold c14_pwg.
+  assert (EA : c14_antipodal b a = c14_antipodal a b).
+  { unfold c14_antipodal. rewrite (c14_cross_anti b a), c14_is0_neg, (c14_dot_comm b a). reflexivity. }
+  assert (EP : c14_plane_ok b a p = c14_plane_ok a b p).
+  { unfold c14_plane_ok. rewrite (c14_cross_anti b a), c14_is0_neg, c14_triple_swap.
+    assert (N : c14_nsq (c14_neg (c14_cross a b)) = c14_nsq (c14_cross a b)) by c14_ring.
+    rewrite N. replace (- c14_triple a b p * - c14_triple a b p) with (c14_triple a b p * c14_triple a b p) by ring.
+    reflexivity. }
+  rewrite EA, EP. destruct (c14_antipodal a b); [reflexivity|].
+  destruct (c14_plane_ok a b p); [|reflexivity]. cbn [negb]. cbv zeta. f_equal.
+  assert (E1 : c14_dot (c14_cross b p) (c14_cross b a) = c14_dot (c14_cross p b) (c14_cross a b)) by c14_ring.
+  assert (E2 : c14_dot (c14_cross p a) (c14_cross b a) = c14_dot (c14_cross a p) (c14_cross a b)) by c14_ring.
+  assert (N : c14_nsq (c14_cross b a) = c14_nsq (c14_cross a b)) by c14_ring.
+  rewrite E1, E2, N. rewrite andb_comm. f_equal; f_equal; ring.
+Qed.
+
+Example c14_ex_through_pole_now_correct :
+  let a := (17, 0, 98) in let b := (-87, 0, 50) in
+  c14_cross a b <> (0, 0, 0) /\ c14_on_arc a b (0, 0, 1) = true /\
+  c14_triple a b (64, 0, 76) = 0 /\ c14_clear_pt a b (64, 0, 76) /\
+  c14_pwg a b (64, 0, 76) = Some false /\ c14_pwg_lonlat a b (64, 0, 76) = Some true /\
+  c14_clear_pt a b (0, 0, 1) /\ c14_pwg a b (0, 0, 1) = Some true /\
+  c14_pwg a b (-40, 0, 76) = Some true.
+Proof.
+  cbv zeta. repeat split; try (vm_compute; congruence); unfold c14_clear; vm_compute;
+    first [left; discriminate | right; reflexivity].
+Qed.
+
+Example c14_ex_almost_meridional :
+  (* endpoint longitudes differ by 1e-6 rad *)
+  let a := (1000000, 0, 176327) in let b := (1000000, 1, 1191754) in
+  c14_cross a b <> (0, 0, 0) /\ c14_z (c14_cross a b) <> 0 /\
+  c14_clear_pt a b (2000000, 1, 1368081) /\ c14_pwg a b (2000000, 1, 1368081) = Some true /\
+  c14_clear_pt a b (1000000, 2, 2207181) /\ c14_pwg a b (1000000, 2, 2207181) = Some false /\
+  c14_on_arc a b (1000000, 2, 2207181) = false.
+Proof.
+  cbv zeta. repeat split; try (vm_compute; congruence); unfold c14_clear; vm_compute;
+    first [left; discriminate | right; reflexivity].
+Qed.
+
+(* ------------------------------------------------------------------------------------------ *)
+(* gca_gca_intersection end to end: no restriction on the position of the arcs                   *)
+
+Lemma c14_clear_pt_triple_cross w0 w1 v0 v1 :
+  let x := c14_cross (c14_cross w0 w1) (c14_cross v0 v1) in
+  c14_triple w0 w1 x = 0 /\ c14_triple v0 v1 x = 0 /\ c14_triple w0 w1 (c14_neg x) = 0 /\ c14_triple v0 v1 (c14_neg x) = 0.
+Proof. cbv zeta. repeat split; c14_ring. Qed.
+
+Lemma c14_gca_gca_correct w0 w1 v0 v1 :
   let x := c14_cross (c14_cross w0 w1) (c14_cross v0 v1) in
   let q := c14_nsq w0 * c14_nsq w1 * c14_nsq v0 * c14_nsq v1 in
   c14_small (c14_x x) q && c14_small (c14_y x) q && c14_small (c14_z x) q = false ->
   x <> (0, 0, 0) ->
-  c14_z (c14_cross w0 w1) <> 0 -> c14_z (c14_cross v0 v1) <> 0 ->
-  c14_is_pole w0 = false -> c14_is_pole w1 = false -> c14_is_pole v0 = false -> c14_is_pole v1 = false ->
-  c14_is_pole x = false ->
+  c14_clear_pt w0 w1 x -> c14_clear_pt v0 v1 x -> c14_clear_pt w0 w1 (c14_neg x) -> c14_clear_pt v0 v1 (c14_neg x) ->
   c14_gca_gca w0 w1 v0 v1 = Some (c14_arc_cross w0 w1 v0 v1).
 Proof.
-  intros x q Hs Hx Hw Hv Pw0 Pw1 Pv0 Pv1 Px.
-  assert (Hnx : c14_neg x <> (0, 0, 0)) by (apply c14_is0_false; rewrite c14_is0_neg; apply c14_is0_false; exact Hx).
-  assert (Pnx : c14_is_pole (c14_neg x) = false) by (rewrite c14_is_pole_neg; exact Px).
-  assert (T1 : c14_triple w0 w1 x = 0) by (unfold x; c14_ring).
-  assert (T2 : c14_triple v0 v1 x = 0) by (unfold x; c14_ring).
-  assert (T3 : c14_triple w0 w1 (c14_neg x) = 0) by (unfold x; c14_ring).
-  assert (T4 : c14_triple v0 v1 (c14_neg x) = 0) by (unfold x; c14_ring).
-  apply c14_gca_gca_structure; try exact Hs; fold x;
-    apply c14_pwg_general_correct; auto.
+  intros x q Hs Hx K1 K2 K3 K4.
+  assert (Hw : c14_cross w0 w1 <> (0, 0, 0)).
+  { intros E. apply Hx. unfold x. rewrite E. c14_ring. }
+  assert (Hv : c14_cross v0 v1 <> (0, 0, 0)).
+  { intros E. apply Hx. unfold x. rewrite E. c14_ring. }
+  destruct (c14_clear_pt_triple_cross w0 w1 v0 v1) as (T1 & T2 & T3 & T4). cbv zeta in T1, T2, T3, T4. fold x in T1, T2, T3, T4.
+  apply c14_gca_gca_structure; try exact Hs; fold x; apply c14_pwg_correct; auto.
 Qed.
 
-Example c14_ex_gca_general :
-  let w0 := (1, 0, 0) in let w1 := (0, 1, 0) in let v0 := (1, 2, -1) in let v1 := (2, 1, 1) in
+Example c14_ex_gca_through_pole :
+  (* arc 1 passes over the north pole (lon 0 -> lon 180), arc 2 crosses it at the pole along the meridians 90 / 270 *)
+  let w0 := (3, 0, 4) in let w1 := (-3, 0, 4) in let v0 := (0, 3, 4) in let v1 := (0, -1, 1) in
   let x := c14_cross (c14_cross w0 w1) (c14_cross v0 v1) in
   let q := c14_nsq w0 * c14_nsq w1 * c14_nsq v0 * c14_nsq v1 in
   c14_small (c14_x x) q && c14_small (c14_y x) q && c14_small (c14_z x) q = false /\ x <> (0, 0, 0) /\
-  c14_z (c14_cross w0 w1) <> 0 /\ c14_z (c14_cross v0 v1) <> 0 /\
-  c14_is_pole w0 = false /\ c14_is_pole w1 = false /\ c14_is_pole v0 = false /\ c14_is_pole v1 = false /\ c14_is_pole x = false /\
-  c14_gca_gca w0 w1 v0 v1 = Some [(3, 3, 0)].
-Proof. cbv zeta. repeat split; try (vm_compute; congruence). Qed.
+  c14_clear_pt w0 w1 x /\ c14_clear_pt v0 v1 x /\ c14_clear_pt w0 w1 (c14_neg x) /\ c14_clear_pt v0 v1 (c14_neg x) /\
+  c14_on_arc w0 w1 (0, 0, 1) = true /\
+  (c14_gca_gca w0 w1 v0 v1 = Some [x] \/ c14_gca_gca w0 w1 v0 v1 = Some [c14_neg x]) /\ c14_x x = 0 /\ c14_y x = 0.
+Proof.
+  cbv zeta. repeat split; try (vm_compute; congruence); unfold c14_clear; try (vm_compute; first [left; discriminate | right; reflexivity]).
+  vm_compute. first [left; reflexivity | right; reflexivity].
+Qed.
